@@ -1194,10 +1194,13 @@ func (c *Ctx) execBlock(fr *Frame, b *ssa.BasicBlock, st *State) {
 }
 
 func (c *Ctx) rteOblige(fr *Frame, st *State, kind string, in ssa.Instruction, goal string) {
-	if !c.rte {
+	if goal == "true" {
 		return
 	}
-	if goal == "true" {
+	if !c.rte {
+		// `norte`: the check is not an obligation of this contract, but execution only
+		// continues past it when it held (otherwise the function has panicked)
+		c.assume(st.reach, goal)
 		return
 	}
 	fr.callSeq["rte."+kind]++
